@@ -4,13 +4,15 @@ import json
 import random
 import re
 
-from .. import casing, common as c, corpus, gen, l1, l1facts, l2, replies, translate
+from .. import casing, common as c, corpus, gen, l1, l1facts, l2, replies, translate, rs2lean
 from . import C18
 
 THEOREMS = [("Sylvia.Thm.C14", "C14." + t) for t in
             ["variantsOf_perm", "nameList_perm", "variantSpecs_perm", "dispatch_target_perm", "entryPoints_perm", "trigger_perm",
              "compatible_perm", "reply_routing_perm", "countKind_perm"]] + \
            [("Sylvia.Lemmas.Sort", "Sylvia.Gen.sortStrings_perm_eq"), ("Sylvia.Lemmas.Reply", "Sylvia.Reply.replyTable_ok")]
+
+THEOREMS = THEOREMS + [("Sylvia.Thm.ReplyOnFn", "ReplyOnFn.excludes_eq"), ("Sylvia.Thm.ReplyOnFn", "ReplyOnFn.excludes_symmetric")]
 
 
 def canon_facts(obs):
@@ -247,6 +249,11 @@ def run(ctx):
                         "changes how `ExecMsg<A, B>` must be spelled, recorded in DESIGN)",
                         "the order of attributes forwarded to one type follows the order of the sv::msg_attr attributes and is kept fixed in the twins"]
     translate.regenerate()
+    # function translator: ReplyOn::excludes -> Extracted/ReplyOnFns.lean (proved equal to the model's `Reply.excludes`)
+    ro_problems = rs2lean.regenerate("replyon")
+    ctx.cov["function_translator_replyon"] = {"source": "sylvia-derive/src/parser/attributes/msg.rs::ReplyOn::excludes", "problems": ro_problems}
+    if ro_problems:
+        ctx.obligation_failed("function-translator(replyon)", "; ".join(ro_problems)[:1500])
     c.prove(ctx, ["Sylvia.Thm.C14"], THEOREMS)
     l1_twins(ctx)
     reply_table_orders(ctx)
